@@ -710,6 +710,12 @@ unsafe impl Kernel<u8, i8, i32> for Avx512Int8Kernel {
     fn new() -> Option<Self> {
         let isa = Avx512Isa::new()?;
         let vnni_dot = Avx512VnniDotProduct::new();
+        #[cfg(feature = "verif_hooks")]
+        let vnni_dot = if crate::verif::vnni_disabled() {
+            None
+        } else {
+            vnni_dot
+        };
         Some(Avx512Int8Kernel { isa, vnni_dot })
     }
 
